@@ -53,7 +53,7 @@ def startPos : Nat → Node → Pos
     | .unary _ _ p => p
     | .arith _ l _ _ => startPos f l
     | .cond _ l _ _ => startPos f l
-    | .inE _ _ _ => Pos.invalid            -- NodeStartPos has no case for InExpr
+    | .inE l _ _ => startPos f l
     | .assign _ lhs _ _ => match lhs with | l :: _ => startPos f l | [] => Pos.invalid
     | .call _ _ np _ _ _ => np
     | .slice _ _ _ _ _ lb _ => lb
